@@ -7,6 +7,8 @@ import (
 	"context"
 	"crypto/ecdsa"
 	"fmt"
+	"github.com/ethereum/go-ethereum/common"
+	"github.com/shutter-network/rolling-shutter/rolling-shutter/shdb"
 	"sort"
 	"verifharness/gossipnet"
 
@@ -98,6 +100,10 @@ func main() {
 			for i := 0; i < env.Scale(48, 600); i++ {
 				plans = append(plans, plan{flavour: "history"})
 			}
+			nHistory = len(plans)
+			for i := 0; i < 8; i++ {
+				plans = append(plans, plan{flavour: "special"})
+			}
 			return len(plans), nil
 		},
 		RunCase: runCase,
@@ -107,6 +113,8 @@ func main() {
 			agg.Require("metamorphic_rejected", 100)
 			agg.Require("history_invalid_after_valid_rejected", 100)
 			agg.Require("history_valid_accepted", 50)
+			agg.Require("zero_address_member_cases", 50)
+			agg.Require("many_identities_cases", 8)
 			agg.Extra["enumerated_n_max"] = env.Scale(3, 4)
 		},
 	})
@@ -285,7 +293,147 @@ func structureOK(signers []uint64, n, t int) (bool, string) {
 	return true, ""
 }
 
-var nEnum int
+var nEnum, nHistory int
+
+// specialCase: (a) a keyper set with the zero address as a member (nobody holds its key, so no
+// signature entry for it is genuine); (b) the largest identity list the signed data admits (1024)
+// and one identity more under the same signatures.
+func specialCase(env *vlib.Env, idx int, rep *vlib.Reporter) {
+	fl := []string{"gnosis", "service"}[idx%2]
+	r := vlib.NewRng(env.Seed, 607, uint64(idx))
+	if idx%4 < 2 {
+		n := 3 + r.Intn(2)
+		z := r.Intn(n)
+		for t := 1; t <= n; t++ {
+			f := newFixture(env, fl, n, t)
+			addrs := append([]common.Address{}, f.kp.Addrs...)
+			addrs[z] = common.Address{}
+			f.set = &obskeyper.KeyperSet{KeyperConfigIndex: eon, ActivationBlockNumber: 0, Keypers: shdb.EncodeAddresses(addrs), Threshold: int32(t)}
+			// signer lists of length t that contain z
+			for _, signers := range subsetsContaining(n, t, z) {
+				for _, kind := range []string{"rand65", "zero65", "len64", "empty", "other-member", "outsider"} {
+					var sigs [][]byte
+					su := make([]uint64, len(signers))
+					for i, sg := range signers {
+						su[i] = uint64(sg)
+						if sg != z {
+							sigs = append(sigs, f.sigs[sg][0])
+							continue
+						}
+						switch kind {
+						case "rand65":
+							b := r.Bytes(65)
+							b[64] &= 1
+							sigs = append(sigs, b)
+						case "zero65":
+							sigs = append(sigs, make([]byte, 65))
+						case "len64":
+							sigs = append(sigs, r.Bytes(64))
+						case "empty":
+							sigs = append(sigs, nil)
+						case "other-member":
+							sigs = append(sigs, f.sigs[(z+1)%n][0])
+						default:
+							sigs = append(sigs, f.sigs[n][0])
+						}
+					}
+					m := f.message(su, sigs)
+					var res pubsub.ValidationResult
+					desc := fmt.Sprintf("%s zero-address member %d of %d, t=%d signers=%v entry=%s", fl, z, n, t, signers, kind)
+					if rep.Guard("panic:"+fl+":zero-member", desc, func() { res, _ = f.validate(m) }) {
+						continue
+					}
+					rep.Obs("validator_calls", 1)
+					rep.Obs("zero_address_member_cases", 1)
+					rep.Eval(desc, true)
+					if res == pubsub.ValidationAccept {
+						rep.Violationf("accepts-invalid:"+fl+":zero-address-member:"+kind, map[string]any{"case": desc}, "accepted although the entry for the zero-address member cannot be a genuine signature (%s)", kind)
+					}
+				}
+			}
+		}
+		return
+	}
+	// 1024 identities
+	n, t := 3, 2
+	f := newFixture(env, fl, n, t)
+	size := 52
+	if fl == "service" {
+		size = 32
+	}
+	var ids []identitypreimage.IdentityPreimage
+	for i := 0; i < 1024; i++ {
+		b := make([]byte, size)
+		b[0], b[1], b[2] = 1, byte(i>>8), byte(i)
+		copy(b[3:], r.Bytes(8))
+		ids = append(ids, b)
+	}
+	f.ids = ids
+	sig := func(k int) []byte { return f.sign(f.kp.Keys[k], 0) }
+	signers := []uint64{0, 2}
+	sigs := [][]byte{sig(0), sig(2)}
+	full := f.message(signers, sigs)
+	var res pubsub.ValidationResult
+	if rep.Guard("panic:"+fl+":1024", "1024 identities", func() { res, _ = f.validate(full) }) {
+		return
+	}
+	rep.Obs("validator_calls", 1)
+	if res != pubsub.ValidationAccept {
+		rep.Violationf("rejects-valid:"+fl+":1024-identities", map[string]any{"flavour": fl}, "a genuinely signed message with 1024 identities (the maximum of the signed data) was rejected")
+		return
+	}
+	rep.Obs("accepted_valid", 1)
+	extra := make([]byte, size)
+	extra[0] = 2
+	for _, variant := range []string{"append-one", "append-two", "change-last", "drop-last"} {
+		m := f.message(signers, sigs)
+		switch variant {
+		case "append-one":
+			m.Keys = append(m.Keys, &p2pmsg.Key{IdentityPreimage: extra, Key: []byte{1}})
+		case "append-two":
+			e2 := append([]byte{}, extra...)
+			e2[1] = 1
+			m.Keys = append(m.Keys, &p2pmsg.Key{IdentityPreimage: extra, Key: []byte{1}}, &p2pmsg.Key{IdentityPreimage: e2, Key: []byte{1}})
+		case "change-last":
+			c := append([]byte{}, m.Keys[1023].IdentityPreimage...)
+			c[size-1] ^= 1
+			m.Keys[1023] = &p2pmsg.Key{IdentityPreimage: c, Key: []byte{1}}
+		case "drop-last":
+			m.Keys = m.Keys[:1023]
+		}
+		desc := fmt.Sprintf("%s 1024 identities, %s", fl, variant)
+		if rep.Guard("panic:"+fl+":1024", desc, func() { res, _ = f.validate(m) }) {
+			continue
+		}
+		rep.Obs("validator_calls", 1)
+		rep.Obs("many_identities_cases", 1)
+		rep.Eval(desc, true)
+		if res == pubsub.ValidationAccept {
+			rep.Violationf("accepts-invalid:"+fl+":1024-identities:"+variant, map[string]any{"case": desc}, "accepted under the signatures for the original 1024 identities (%s)", variant)
+		}
+	}
+}
+
+func subsetsContaining(n, k, must int) [][]int {
+	var out [][]int
+	var rec func(start int, cur []int)
+	rec = func(start int, cur []int) {
+		if len(cur) == k {
+			for _, x := range cur {
+				if x == must {
+					out = append(out, append([]int(nil), cur...))
+					return
+				}
+			}
+			return
+		}
+		for i := start; i < n; i++ {
+			rec(i+1, append(cur, i))
+		}
+	}
+	rec(0, nil)
+	return out
+}
 
 // historyCase: one long-lived validator instance of a real node (access node, Gnosis keyper,
 // Shutter-service keyper) sees a genuine keys message and, before and after it, messages with the
@@ -299,7 +447,12 @@ func historyCase(env *vlib.Env, idx int, rep *vlib.Reporter) {
 	t := 1 + r.Intn(n)
 	w := gossipnet.NewWorld(env.Seed+uint64(idx%5), n, t)
 	index := r.Intn(n)
-	node, err := gossipnet.NewNode(ctx, w, fl, index, gossipnet.StateMemberSuccess)
+	state := gossipnet.StateMemberSuccess
+	noKeyperSet := fl == gossipnet.AccessNode && (idx/3)%2 == 1
+	if noKeyperSet {
+		state = gossipnet.StateNotMember // the access node knows the eon key but not (yet) the keyper set
+	}
+	node, err := gossipnet.NewNode(ctx, w, fl, index, state)
 	if err != nil {
 		rep.Inconclusive("node: " + err.Error())
 		return
@@ -460,6 +613,14 @@ func historyCase(env *vlib.Env, idx int, rep *vlib.Reporter) {
 				rep.Obs("history_invalid_after_valid_rejected", 1)
 			}
 		}
+		if noKeyperSet {
+			// without the keyper set nothing can be checked against a threshold: nothing is accepted
+			if !send(genuine(), "genuine message while the keyper set is unknown", false, phase) {
+				return
+			}
+			rep.Obs("history_accessnode_without_keyper_set", 1)
+			continue
+		}
 		if !send(genuine(), "genuine", true, phase) {
 			return
 		}
@@ -474,6 +635,10 @@ func historyCase(env *vlib.Env, idx int, rep *vlib.Reporter) {
 }
 
 func runCase(env *vlib.Env, idx int, rep *vlib.Reporter) {
+	if idx >= nHistory {
+		specialCase(env, idx-nHistory, rep)
+		return
+	}
 	if idx >= nEnum {
 		historyCase(env, idx, rep)
 		return
